@@ -1,8 +1,8 @@
 import SE.Spec.Mapping
 /-
 Statement vocabulary for C11: the reference names a template mentions (as `regexp.Expand` and
-`expandSpec` scan it), and the decidable guard `SafeTemplate` under which the *unchanged* glob
-formatter provably agrees with `expandSpec`.
+`expandSpec` scan it), and the decidable guard `SafeTemplate` under which the glob formatter
+(with the repaired reference regex `\$\{?([a-zA-Z0-9_]+)\}?`) provably agrees with `expandSpec`.
 -/
 namespace SE
 
@@ -46,7 +46,9 @@ def refTexts : List Seg → List Bytes
   | .ref b ds :: segs => refText b ds :: refTexts segs
 
 /-- what may follow a reference: after a braced one anything; after a bare `$ds` either the end of
-    the template or a byte outside `[a-zA-Z0-9_$}]` -/
+    the template or a byte outside `[a-zA-Z0-9_}]` — in particular `$`, the start of the next
+    reference (a word byte would not be "following" but part of the name; a `}` would be swallowed
+    by the formatter's regex) -/
 def followOk : List Seg → Bool
   | [] => true
   | .lit _ :: segs => followOk segs
@@ -54,7 +56,7 @@ def followOk : List Seg → Bool
   | .ref false _ :: segs =>
     (match flatSegs segs with
      | [] => true
-     | c :: _ => !isRefByte c && c != cRBrace) && followOk segs
+     | c :: _ => !isWordByte c && c != cRBrace) && followOk segs
 
 /-- per-segment conditions: literals contain neither `$` nor `%`; a reference name is a non-empty
     run of `[A-Za-z0-9_]` that is either a decimal number as `regexp.Expand` reads it (no leading
@@ -88,14 +90,20 @@ def segsOf : Nat → Bytes → Bytes → List Seg
     * no literal contains `$` or `%` (so every `$` starts a reference, and there is no `$$`),
     * every reference is `$name` or `${name}`, `name` a non-empty run of `[A-Za-z0-9_]` that is
       either a decimal number without leading zero of ≤ 8 digits, or not purely numeric,
-    * a bare `$name` is followed by the end of the template or by a byte outside `[a-zA-Z0-9_$}]`
-      (so neither another reference nor a `}` follows directly),
+    * a bare `$name` is followed by the end of the template or by a byte outside `[a-zA-Z0-9_}]`
+      (so no `}` follows directly; another reference may: `$1$2`, `$1${2}`),
     * no reference text is a proper prefix of another one (`$1` and `$11` together are out;
       `$1` and `${11}` are fine).
-    The three defects of the unchanged formatter (`$1$2`, `100%-$1`, `$1-$11`) violate exactly
-    one of these each. -/
+    The two remaining defects of the formatter (`100%-$1`, `$1-$11`) violate exactly one of these
+    each; the third one (`$1$2`) is repaired and such templates are accepted. -/
 def SafeTemplate (tmpl : Bytes) : Bool :=
   let segs := segsOf tmpl.length [] tmpl
   flatSegs segs == tmpl && SafeSegs segs
+
+/-- the template contains two adjacent `$` (for `regexp.Expand` and `expandSpec` the escape `$$`;
+    the formatter's regex sees no reference in it and copies both) -/
+def hasDollarDollar : Bytes → Bool
+  | a :: b :: r => (a == cDollar && b == cDollar) || hasDollarDollar (b :: r)
+  | _ => false
 
 end SE
